@@ -57,6 +57,8 @@ SCENARIOS = {
     "q_pair": dict(td=("t1",), tags=("s1",), en=(), k=(), ffis=2, per=2),
     "q_fn": dict(td=(), tags=("s1",), en=(), k=("k1",), fn=("f1",), gv=("g1",), ffis=2, per=1),
     "q_chain": dict(td=("t1",), tags=(), en=("e1",), k=("k1",), ffis=3, per=1),
+    # 64-bit boundary values of constants / enumerators seen through the including FFI
+    "q_bigk": dict(td=(), tags=(), en=("e1",), k=("k1",), feat=("bigconst",), ffis=2, per=1),
     "sanity": dict(td=("t1",), tags=(), en=("e1",), k=(), ffis=2, per=1),
     # thorough
     "pair_en": dict(td=("t1",), tags=("s1",), en=("e1",), k=(), ffis=2, per=2),
@@ -290,7 +292,7 @@ def run(ctx):
     quick = ctx.quick
     jobs = int(os.environ.get("VERIF_JOBS", "8"))
     libpath = mg.build_pool_lib(core, ctx.tmp)
-    scen = ["q_pair", "q_fn", "q_chain"] if quick else ["q_pair", "q_fn", "q_chain", "pair_en", "chain3b", "pair_k"]
+    scen = ["q_pair", "q_fn", "q_chain", "q_bigk"] if quick else ["q_pair", "q_fn", "q_chain", "q_bigk", "pair_en", "chain3b", "pair_k"]
 
     def tlc_job(name):
         r = core.tlc("CdefInc", cfg_text=cfg(emit=True, **SCENARIOS[name]), workers=1, timeout=1700)
